@@ -1,9 +1,11 @@
 package checks
 
 import (
+	gnutar "archive/tar"
 	"bytes"
 	"errors"
 	"fmt"
+	"io"
 	"net"
 	"net/url"
 	"os"
@@ -22,7 +24,12 @@ import (
 // ---- process-level parts for C01, C09, C16, C17: the real binary on real files and a real local store ----
 
 func runDesync(args ...string) (exit int, stdout, stderr []byte, err error) {
+	return runDesyncIn("", args...)
+}
+
+func runDesyncIn(cwd string, args ...string) (exit int, stdout, stderr []byte, err error) {
 	cmd := exec.Command(desyncBin(), args...)
+	cmd.Dir = cwd
 	var o, e bytes.Buffer
 	cmd.Stdout, cmd.Stderr = &o, &e
 	cmd.Env = append(os.Environ(), "HOME=/nonexistent-verif-home")
@@ -71,6 +78,31 @@ func runC01Proc(c *fw.Case) {
 	inPlace := c.Bool("cli.inplace")
 	args := []string{"extract", "-n", strconv.Itoa(s.n), "-s", storeDir}
 	allValid := true
+	// --seed-dir: every <file>.caibx with <file> next to it in the directory is a seed, except the index being
+	// extracted (which sits next to the prior content of the destination). Directory, index and destination are
+	// spelled relative or absolute independently; the process runs in the parent of the case directory.
+	seedDir := c.Chance(1, 3, "cli.seeddir")
+	cwd := filepath.Dir(c.Dir())
+	spell := func(p string, label string) string {
+		rel, err := filepath.Rel(cwd, p)
+		if err != nil {
+			return p
+		}
+		switch c.Draw(4, label) {
+		case 0:
+			return rel
+		case 1:
+			return "./" + rel
+		case 2:
+			return filepath.Base(c.Dir()) + "/../" + rel
+		}
+		return p
+	}
+	targetArg := s.target
+	if seedDir {
+		indexFile, targetArg = spell(indexFile, "cli.spell.index"), spell(s.target, "cli.spell.target")
+		args = append(args, "--seed-dir", spell(c.Dir(), "cli.spell.dir"))
+	}
 	for i, sp := range s.seeds {
 		if sp.alias {
 			continue // the CLI takes seeds as <file>.caibx next to <file>; the destination itself is covered in-bubble
@@ -79,7 +111,9 @@ func runC01Proc(c *fw.Case) {
 		if _, err := os.Stat(si); err != nil {
 			writeIndexFile(si, sp.idx)
 		}
-		args = append(args, "--seed", si)
+		if !seedDir {
+			args = append(args, "--seed", si)
+		}
 		if !sp.validAtRest {
 			allValid = false
 		}
@@ -94,11 +128,11 @@ func runC01Proc(c *fw.Case) {
 	if inPlace {
 		args = append(args, "--in-place")
 	}
-	args = append(args, indexFile, s.target)
-	c.Class(fmt.Sprintf("cli extract inplace=%v action=%d seeds=%d prior=%s", inPlace, s.action, len(s.seeds), s.prior))
+	args = append(args, indexFile, targetArg)
+	c.Class(fmt.Sprintf("cli extract inplace=%v action=%d seeds=%d prior=%s seeddir=%v", inPlace, s.action, len(s.seeds), s.prior, seedDir))
 	c.Note("real `desync %s` (%s)", strings.Join(args, " "), s.describe())
 	c.NonTrivial()
-	exit, _, stderr, err := runDesync(args...)
+	exit, _, stderr, err := runDesyncIn(cwd, args...)
 	if err != nil {
 		c.HarnessError("%v", err)
 		return
@@ -127,7 +161,7 @@ func tailBytes(b []byte, n int) string {
 	return string(b)
 }
 
-// C09: `desync cat -o <offset> -l <length>`.
+// C09: `desync cat -o <offset> -l <length> <index> [<output file>]`, optionally with a cache and with a chunk missing from the store.
 func runC09Proc(c *fw.Case) {
 	c.Probe("process-level-case (real desync binary)")
 	sz := c09Sizes[c.Draw(len(c09Sizes), "c09.sizes")]
@@ -141,7 +175,31 @@ func runC09Proc(c *fw.Case) {
 	indexFile := filepath.Join(c.Dir(), "blob.caibx")
 	writeIndexFile(indexFile, idx)
 	L := len(blob)
-	c.Class(fmt.Sprintf("cli cat sizes=%d/%d", sz.min, sz.max))
+	// fault: one chunk object is removed from the store
+	missFrom, missTo := -1, -1
+	if len(idx.Chunks) > 0 && c.Bool("cat.missing") {
+		ch := idx.Chunks[c.Draw(len(idx.Chunks), "cat.victim")]
+		null := desync.NewNullChunk(sz.max)
+		if ch.ID != null.ID {
+			os.Remove(chunkFile(storeDir, ch.ID, false))
+			c.Fault("store-chunk-missing")
+			// every position of that id is affected
+			missFrom, missTo = int(ch.Start), int(ch.Start+ch.Size)
+			for _, o := range idx.Chunks {
+				if o.ID == ch.ID {
+					if int(o.Start) < missFrom {
+						missFrom = int(o.Start)
+					}
+					if int(o.Start+o.Size) > missTo {
+						missTo = int(o.Start + o.Size)
+					}
+				}
+			}
+		}
+	}
+	toFile := c.Bool("cat.tofile")
+	useCache := c.Bool("cat.cache")
+	c.Class(fmt.Sprintf("cli cat sizes=%d/%d tofile=%v cache=%v missing=%v", sz.min, sz.max, toFile, useCache, missFrom >= 0))
 	c.NonTrivial()
 	for i := 0; i < 6; i++ {
 		off := c.Draw(L+1, "cat.off")
@@ -149,23 +207,44 @@ func runC09Proc(c *fw.Case) {
 		if i == 0 {
 			off, length = 0, 0
 		}
-		args := []string{"cat", "-s", storeDir, "-o", strconv.Itoa(off), "-l", strconv.Itoa(length), indexFile}
+		args := []string{"cat", "-s", storeDir, "-o", strconv.Itoa(off), "-l", strconv.Itoa(length)}
+		if useCache {
+			cd := filepath.Join(c.Dir(), fmt.Sprintf("cache%d", i))
+			os.MkdirAll(cd, 0755)
+			args = append(args, "-c", cd)
+		}
+		args = append(args, indexFile)
+		outFile := filepath.Join(c.Dir(), fmt.Sprintf("out%d", i))
+		if toFile {
+			args = append(args, outFile)
+		}
 		exit, out, stderr, err := runDesync(args...)
 		if err != nil {
 			c.HarnessError("%v", err)
 			return
+		}
+		if toFile {
+			out, _ = os.ReadFile(outFile)
 		}
 		c.SubEval(1)
 		want := blob[off:]
 		if length > 0 {
 			want = blob[off : off+length]
 		}
-		if exit != 0 {
-			c.Violate("cat-failed", "desync cat", "cat -o %d -l %d on a blob of %d bytes exits %d: %s", off, length, L, exit, tailBytes(stderr, 200))
-			return
+		if exit == 0 {
+			if !bytes.Equal(out, want) {
+				c.Violate("read-wrong-data", "desync cat", "`desync %s` exits 0 but wrote %d bytes that differ from the blob range (%d bytes)", strings.Join(args, " "), len(out), len(want))
+				return
+			}
+			continue
 		}
-		if !bytes.Equal(out, want) {
-			c.Violate("read-wrong-data", "desync cat", "cat -o %d -l %d returned %d bytes that differ from the blob range (%d bytes)", off, length, len(out), len(want))
+		// a failure is only acceptable when the range needs the missing chunk
+		touches := missFrom >= 0 && off < missTo && off+len(want) > missFrom
+		if missFrom >= 0 && len(want) == 0 {
+			touches = true // an empty range at a chunk boundary may still load a chunk
+		}
+		if !touches {
+			c.Violate("cat-failed", "desync cat", "`desync %s` on a blob of %d bytes exits %d although every chunk it needs is in the store: %s", strings.Join(args, " "), L, exit, tailBytes(stderr, 200))
 			return
 		}
 	}
@@ -269,6 +348,28 @@ func runC16Proc(c *fw.Case) {
 	os.WriteFile(tmp, []byte("partial"), 0644)
 	junk := filepath.Join(dir, "README")
 	os.WriteFile(junk, []byte("junk"), 0644)
+	indexFile := filepath.Join(c.Dir(), "blob.caibx")
+	writeIndexFile(indexFile, idx)
+	// more indexes over the same store: prune keeps the union of what they reference
+	indexArgs := []string{indexFile}
+	for i := 0; i < c.Draw(3, "cli.moreidx"); i++ {
+		b2 := genBlob(c, sz, c.Range(1, 60, "cli.idx.chunks")*int(sz.max)/2)
+		i2 := mkIndex(b2, sz)
+		if err := fillLocalStore(dir, b2, i2.Chunks); err != nil {
+			c.HarnessError("%v", err)
+			return
+		}
+		for _, ch := range i2.Chunks {
+			referenced[ch.ID] = true
+		}
+		f := filepath.Join(c.Dir(), fmt.Sprintf("blob%d.caibx", i))
+		writeIndexFile(f, i2)
+		indexArgs = append(indexArgs, f)
+	}
+	for i := len(indexArgs) - 1; i > 0; i-- {
+		j := c.Draw(i+1, "cli.idx.order")
+		indexArgs[i], indexArgs[j] = indexArgs[j], indexArgs[i]
+	}
 	var bad desync.ChunkID
 	haveBad := false
 	if len(idx.Chunks) > 0 && c.Bool("corrupt") {
@@ -277,15 +378,13 @@ func runC16Proc(c *fw.Case) {
 		haveBad = true
 		c.Fault("stored-chunk-corrupted")
 	}
-	indexFile := filepath.Join(c.Dir(), "blob.caibx")
-	writeIndexFile(indexFile, idx)
 	op := c.Draw(3, "cli.op")
-	c.Class(fmt.Sprintf("cli op=%d", op))
+	c.Class(fmt.Sprintf("cli op=%d indexes=%d", op, len(indexArgs)))
 	c.NonTrivial()
 	exists := func(p string) bool { _, err := os.Lstat(p); return err == nil }
 	switch op {
 	case 0:
-		exit, _, stderr, err := runDesync("prune", "-y", "-s", dir, indexFile)
+		exit, _, stderr, err := runDesync(append([]string{"prune", "-y", "-s", dir}, indexArgs...)...)
 		if err != nil {
 			c.HarnessError("%v", err)
 			return
@@ -386,14 +485,54 @@ func runC05Proc(c *fw.Case) {
 		tarArgs = append(tarArgs, "-i", "-s", storeDir, "-m", "1:4:16", "-n", strconv.Itoa(c.Range(1, 4, "cli.n")))
 		untarArgs = append(untarArgs, "-i", "-s", storeDir, "-n", strconv.Itoa(c.Range(1, 4, "cli.n2")))
 	}
+	// --input-format tar: the tree arrives as a tar file, possibly cut short inside a member (a producer that died, a
+	// partial download). Then either the command fails, or what it wrote unpacks to the complete tree.
+	tarIn := c.Chance(1, 3, "cli.tarin")
+	cut := false
+	ignore := map[string]bool{"mtime-symlink": true}
+	if tarIn {
+		tb, ok := gnuTarOf(want)
+		if !ok {
+			c.Outcome("tar-input-not-representable")
+			return
+		}
+		if cut = c.Bool("cli.tarcut"); cut {
+			off := c.Draw(len(tb), "cli.tarcut.at")
+			if off%512 == 0 {
+				off++ // a cut on a block boundary can be a shorter, complete archive
+			}
+			if off < len(tb) {
+				tb = tb[:off]
+			}
+			// archive/tar itself takes a stream that ends inside the padding after a member's data for a complete,
+			// shorter archive; only a cut it reports is one `desync tar` can be expected to report
+			if !tarReadFails(tb) {
+				c.Outcome("tar-cut-not-detectable")
+				return
+			}
+			c.Fault("tar-input-truncated")
+		}
+		src = filepath.Join(c.Dir(), "tree.tar")
+		if err := os.WriteFile(src, tb, 0644); err != nil {
+			c.HarnessError("%v", err)
+			return
+		}
+		tarArgs = append(tarArgs, "--input-format", "tar")
+		ignore["xattr"] = true // not put into the tar input
+	}
 	tarArgs = append(tarArgs, archive, src)
 	untarArgs = append(untarArgs, archive, dst)
-	c.Class(fmt.Sprintf("cli tar/untar index=%v sha256=%v entries<=%d", useIndex, sha256mode, (nent+7)/8*8))
+	c.Class(fmt.Sprintf("cli tar/untar index=%v sha256=%v tarin=%v cut=%v entries<=%d", useIndex, sha256mode, tarIn, cut, (nent+7)/8*8))
 	c.Note("real `desync %s` then `desync %s`", strings.Join(tarArgs, " "), strings.Join(untarArgs, " "))
 	c.NonTrivial()
 	exit, _, stderr, err := runDesync(tarArgs...)
 	if err != nil {
 		c.HarnessError("%v", err)
+		return
+	}
+	if exit != 0 && cut {
+		c.SubEval(1)
+		c.Outcome("truncated-input-rejected")
 		return
 	}
 	if exit != 0 {
@@ -423,7 +562,11 @@ func runC05Proc(c *fw.Case) {
 		c.HarnessError("%v", err)
 		return
 	}
-	if cat, d := diffTrees(want, got, map[string]bool{"mtime-symlink": true}); cat != "" {
+	if cat, d := diffTrees(want, got, ignore); cat != "" {
+		if cut {
+			c.Violate("truncated-input-accepted", "desync tar --input-format tar", "the tar input was cut short, `desync tar` exited 0 and its output unpacks to a different tree: %s", d)
+			return
+		}
 		c.Violate("tree-differs", "desync tar+untar/"+cat, "%s", d)
 		return
 	}
@@ -469,6 +612,10 @@ func runC14Proc(c *fw.Case) {
 			b[i] = byte(r.IntN(256))
 		}
 		return b
+	}
+	if c.Chance(1, 3, "proc.retrycfg") {
+		runC14ProcRetry(c)
+		return
 	}
 	if c.Bool("proc.index") {
 		writable := c.Bool("proc.writable")
@@ -611,4 +758,110 @@ func runC14Proc(c *fw.Case) {
 		return
 	}
 	c.Outcome("ok")
+}
+
+// runC14ProcRetry: the retry budget a user configures - in the config file's store-options for the store URL, overridden
+// by -e/--error-retry when given; -b/--error-retry-base-interval sets the delay only - is what the real client obeys:
+// each object sees at most max(1, budget) attempts, and a run of transient 503s shorter than that is invisible.
+func runC14ProcRetry(c *fw.Case) {
+	sz := sizes{64, 256, 1024}
+	blob := genBlob(c, sz, 4*int(sz.max))
+	idx := mkIndex(blob, sz)
+	if len(idx.Chunks) == 0 {
+		c.Outcome("empty")
+		return
+	}
+	g, err := newGateServer(false)
+	if err != nil {
+		c.HarnessError("%v", err)
+		return
+	}
+	defer g.close()
+	for _, ch := range idx.Chunks {
+		g.addChunk(blob[ch.Start : ch.Start+ch.Size])
+	}
+	indexFile := filepath.Join(c.Dir(), "blob.caibx")
+	writeIndexFile(indexFile, idx)
+	cfgRetry := c.Range(0, 6, "retry.cfg")
+	cfgFile := filepath.Join(c.Dir(), "config.json")
+	cfg := fmt.Sprintf(`{"store-options": {%q: {"error-retry": %d, "error-retry-base-interval": 1000000}}}`, g.url(), cfgRetry)
+	if err := os.WriteFile(cfgFile, []byte(cfg), 0644); err != nil {
+		c.HarnessError("%v", err)
+		return
+	}
+	args := []string{"cat", "--config", cfgFile, "-n", "1", "-s", g.url()}
+	effective := cfgRetry
+	flag := c.Draw(4, "retry.flag")
+	switch flag {
+	case 1:
+		effective = c.Range(0, 6, "retry.e")
+		args = append(args, "-e", strconv.Itoa(effective))
+	case 2:
+		args = append(args, "-b", "2ms")
+	case 3:
+		effective = c.Range(0, 6, "retry.e")
+		args = append(args, "--error-retry-base-interval", "2ms", "--error-retry", strconv.Itoa(effective))
+	}
+	args = append(args, indexFile)
+	budget := effective
+	if budget < 1 {
+		budget = 1
+	}
+	f := c.Draw(budget+2, "retry.failures")
+	g.failFirst = f
+	c.Class(fmt.Sprintf("cli retry-config cfg=%d flag=%d f=%d", cfgRetry, flag, f))
+	c.Note("real `desync %s`, config error-retry=%d, first %d request(s) per object answered 503", strings.Join(args, " "), cfgRetry, f)
+	c.NonTrivial()
+	if f > 0 {
+		c.Fault("http-503-transient")
+	}
+	exit, out, stderr, err := runDesync(args...)
+	if err != nil {
+		c.HarnessError("%v", err)
+		return
+	}
+	c.SubEval(1)
+	g.mu.Lock()
+	per := map[string]int{}
+	for k, v := range g.perPath {
+		per[k] = v
+	}
+	g.mu.Unlock()
+	for k, v := range per {
+		if v > budget {
+			c.Violate("too-many-attempts", "desync cat (config+flags)", "effective error-retry=%d allows %d attempt(s), the server saw %d for %s", effective, budget, v, k)
+			return
+		}
+	}
+	if exit == 0 && !bytes.Equal(out, blob) {
+		c.Violate("data-altered", "desync cat (config+flags)", "exit 0 but the output differs from the blob")
+		return
+	}
+	if f < budget && exit != 0 {
+		c.Violate("transient-failure-visible", "desync cat (config+flags)", "%d transient failure(s) per object < budget %d (config error-retry=%d, flags %v), yet exit %d: %s", f, budget, cfgRetry, args[6:len(args)-1], exit, tailBytes(stderr, 200))
+		return
+	}
+	// all-zero chunks are produced locally and never requested; only a requested object can fail
+	if f >= budget && exit == 0 && len(per) > 0 {
+		c.Violate("failure-reported-as-success", "desync cat (config+flags)", "every one of the %d allowed attempt(s) for %d requested object(s) was answered 503, yet exit 0", budget, len(per))
+		return
+	}
+	c.Outcome("ok")
+}
+
+// tarReadFails reports whether reading the whole tar stream with archive/tar ends in an error other than a clean EOF.
+func tarReadFails(b []byte) bool {
+	tr := gnutar.NewReader(bytes.NewReader(b))
+	for {
+		_, err := tr.Next()
+		if err == io.EOF {
+			return false
+		}
+		if err != nil {
+			return true
+		}
+		if _, err := io.Copy(io.Discard, tr); err != nil {
+			return true
+		}
+	}
 }
